@@ -6,11 +6,13 @@ var Registry = map[string]func(tier string) int{
 	"C02": C02,
 	"C03": C03,
 	"C04": C04,
+	"C05": C05,
 	"C08": C08,
 	"C09": C09,
 	"C10": C10,
 	"C11": C11,
 	"C13": C13,
+	"C14": C14,
 	"C15": C15,
 	"C16": C16,
 }
